@@ -45,7 +45,7 @@ var supplements = map[string]monitorSpec{
 	"C05": {"io", "stream_mon_test.go.txt", "codec-dependent part: the decoded bytes are the original, in order, for 1, 2, 3 and 8 decoding jobs"},
 	"C06": {"io", "stream_mon_test.go.txt", "stream level: sources delivering 1, 3, 7, 13 or 4096 bytes per call and consumers reading odd-sized pieces get the original bytes"},
 	"C08": {"io", "stream_mon_test.go.txt", "codec-dependent part: sinks and sources that fail after a pseudo-random number of bytes are never answered with success on incomplete data"},
-	"C03": {"io", "stream_mon_test.go.txt", "codec-dependent part: mutated streams never make the reader panic or run longer than max(60 s, 200 x the decoding time of the valid stream)"},
+	"C03": {"io", "stream_mon_test.go.txt", "codec-dependent part: mutated streams never make the reader panic or run longer than 200 x the decoding time of the valid stream (at least 60 s, at most 300 s)"},
 	"C10": {"io", "golden_mon_test.go.txt", "golden corpus: streams written by the reference snapshot 76efab5 decode to the bytes the reference wrote"},
 	"C19": {"app", "cli_mon_test.go.txt", "the built binary on generated trees: round trips over levels and options, refusals (existing output without -f, output equal to input), --rm keeps the source when the output fails"},
 	"C17": {"io", "stream_mon_test.go.txt", "lifecycle programs on the real Writer and Reader: operations after Close fail without side effects, Close idempotent, counters monotone"},
